@@ -61,23 +61,24 @@ pub fn game_ending(
     move_generator: &mut MoveGenerator,
     current_turn: Color,
 ) -> Option<GameEnding> {
-    if board.max_seen_position_count() == 3 {
-        return Some(GameEnding::Draw);
-    }
-
-    if board.halfmove_clock() >= 100 {
-        return Some(GameEnding::Draw);
-    }
-
     let candidates = move_generator.generate_moves(board, current_turn);
     let check = current_player_is_in_check(board, move_generator);
 
+    // A side without a legal move is mated or stalemated, whatever the clocks say.
     if candidates.is_empty() {
         if check {
             return Some(GameEnding::Checkmate);
         } else {
             return Some(GameEnding::Stalemate);
         }
+    }
+
+    if board.max_seen_position_count() == 3 {
+        return Some(GameEnding::Draw);
+    }
+
+    if board.halfmove_clock() >= 100 {
+        return Some(GameEnding::Draw);
     }
 
     None
